@@ -79,3 +79,9 @@ Props/C15.vos Props/C15.vok Props/C15.required_vos: Props/C15.v Model/FM.vos Mod
 Props/C16.vo Props/C16.glob Props/C16.v.beautified Props/C16.required_vo: Props/C16.v Base/PyFloat.vo Model/FM.vo Model/Queries.vo Model/Ops.vo Proofs/C16Facts.vo
 Props/C16.vio: Props/C16.v Base/PyFloat.vio Model/FM.vio Model/Queries.vio Model/Ops.vio Proofs/C16Facts.vio
 Props/C16.vos Props/C16.vok Props/C16.required_vos: Props/C16.v Base/PyFloat.vos Model/FM.vos Model/Queries.vos Model/Ops.vos Proofs/C16Facts.vos
+Proofs/C18Facts.vo Proofs/C18Facts.glob Proofs/C18Facts.v.beautified Proofs/C18Facts.required_vo: Proofs/C18Facts.v Base/Result.vo Base/Str.vo Base/AstOp.vo Gen/Tables_core.vo Model/Ast.vo Model/Ctc.vo Model/Sem.vo
+Proofs/C18Facts.vio: Proofs/C18Facts.v Base/Result.vio Base/Str.vio Base/AstOp.vio Gen/Tables_core.vio Model/Ast.vio Model/Ctc.vio Model/Sem.vio
+Proofs/C18Facts.vos Proofs/C18Facts.vok Proofs/C18Facts.required_vos: Proofs/C18Facts.v Base/Result.vos Base/Str.vos Base/AstOp.vos Gen/Tables_core.vos Model/Ast.vos Model/Ctc.vos Model/Sem.vos
+Props/C18.vo Props/C18.glob Props/C18.v.beautified Props/C18.required_vo: Props/C18.v Base/Result.vo Base/Str.vo Base/AstOp.vo Model/Ast.vo Model/Ctc.vo Model/Sem.vo Proofs/C18Facts.vo
+Props/C18.vio: Props/C18.v Base/Result.vio Base/Str.vio Base/AstOp.vio Model/Ast.vio Model/Ctc.vio Model/Sem.vio Proofs/C18Facts.vio
+Props/C18.vos Props/C18.vok Props/C18.required_vos: Props/C18.v Base/Result.vos Base/Str.vos Base/AstOp.vos Model/Ast.vos Model/Ctc.vos Model/Sem.vos Proofs/C18Facts.vos
